@@ -458,6 +458,10 @@ def promote_cls(a, b):
 
 def result_cls(a, b, op="add"):
     """Result class of a binary arithmetic operation between scalars of classes a, b."""
+    if getattr(a, "_fp", False):
+        a = float64
+    if getattr(b, "_fp", False):
+        b = float64
     if a._py and b._py:
         if op == "div" or "f" in (a._kind, b._kind):
             return pyfloat
@@ -558,6 +562,14 @@ def cast_scalar(x, cls):
             raise TypeError(f"cannot convert {type(x).__name__} to {cls._name}")
     if type(x) is cls:
         return x
+    if getattr(type(x), "_fp", False):
+        if cls._kind == "f":
+            return x
+        if cls._kind == "i":
+            from . import fp
+
+            return fp.trunc(x)
+        raise ShimUnsupported("FP-mode value cast to a non-numeric type")
     k = cls._kind
     if k == "f":
         if x._kind == "b":
@@ -626,8 +638,18 @@ _PYOPS = {"add": lambda x, y: x + y, "sub": lambda x, y: x - y, "mul": lambda x,
           "floordiv": lambda x, y: x // y, "mod": lambda x, y: x % y}
 
 
+def _any_fp(*xs):
+    return builtins.any(getattr(type(x), "_fp", False) for x in xs)
+
+
 def _arith(a, b, op):
     a0, b0 = a, b
+    if _any_fp(a, b):
+        from . import fp
+
+        if wrap(a) is None or wrap(b) is None:
+            return NotImplemented
+        return fp.arith(a, b, op)
     a, b = wrap(a), wrap(b)
     if a is not None and b is None and not hasattr(b0, "_buf"):
         return _foreign(a, b0, _PYOPS[op])
@@ -773,6 +795,13 @@ def _special_arith(a, b, op, cls, spa, spb, nan):
 
 
 def _power(a, b):
+    if _any_fp(a, b):
+        if isinstance(b, int) and 0 < b <= 3:
+            r = a
+            for _ in range(b - 1):
+                r = r * a
+            return r
+        raise ShimUnsupported("FP-mode power")
     a, b = wrap(a), wrap(b)
     if a is None or b is None:
         return NotImplemented
@@ -848,6 +877,12 @@ def _compare(a, b, op):
         if op == "ne":
             return True
         return NotImplemented
+    if _any_fp(a, b):
+        from . import fp
+
+        if wrap(a) is None or wrap(b) is None:
+            return NotImplemented
+        return fp.compare(a, b, op)
     a, b = wrap(a), wrap(b)
     if a is None or b is None:
         return NotImplemented
@@ -930,6 +965,10 @@ def ite(cond, x, y):
     if isinstance(cond, generic) and not cond.sym:
         return x if cond.v else y
     c = bool_term(cond)
+    if _any_fp(x, y):
+        from . import fp
+
+        return fp.ite(c, x, y)
     xs, ys = wrap(x), wrap(y)
     if xs is None or ys is None:
         return x if core.cur().branch(c) else y
@@ -952,6 +991,8 @@ def ite(cond, x, y):
 
 # ----------------------------------------------------------------------------- shadows of builtins
 def py_float(x=0.0):
+    if getattr(type(x), "_fp", False):
+        return x
     if isinstance(x, generic):
         if x.sym or x.nan is not None:
             return cast_scalar(x, pyfloat)
@@ -964,6 +1005,10 @@ def py_float(x=0.0):
 
 
 def py_int(x=0, *a):
+    if getattr(type(x), "_fp", False):
+        from . import fp
+
+        return fp.trunc(x)
     if isinstance(x, generic):
         if x.sym or x.nan is not None:
             return cast_scalar(x, pyint)
@@ -993,6 +1038,12 @@ def _flatten_classinfo(ci):
 
 
 def py_isinstance(obj, classinfo):
+    if getattr(type(obj), "_fp", False):
+        # an FP-mode value stands for a Python float / numpy float64 (or an int computed from one)
+        for c in _flatten_classinfo(classinfo):
+            if c in (int, py_int, float, py_float, numbers.Number, numbers.Real, numbers.Integral) or (isinstance(c, type) and isinstance(obj, c)):
+                return True
+        return False
     if isinstance(obj, generic):
         for c in _flatten_classinfo(classinfo):
             if c is int or c is py_int:
@@ -1022,6 +1073,10 @@ def py_isinstance(obj, classinfo):
 
 def _has_sym(items):
     return builtins.any(isinstance(i, generic) and (i.sym or i.nan is not None) for i in items)
+
+
+def nan_of(x):
+    return None
 
 
 def _minmax(args, key, default, is_min, orig):
